@@ -15,11 +15,11 @@ for seed in sorted(os.listdir(root)):
     for l in evals:
         m = re.match(r"\S+ tier=(\S+) (C\d+): (.*)", l)
         if m: last[m.group(2)] = ("detected" if "VIOLATION" in m.group(3) else "missed", m.group(1), m.group(3).strip())
-    meta = {"seed": seed, "breaks_property": seed[:3] if not seed.startswith("R") else (open(d + "/props").read().split() if os.path.exists(d + "/props") else []), "touches": files,
-            "origin": "independent sub-agent given only the property text and a scratch worktree" if not seed.startswith("R") else "reverted fix commit",
+    meta = {"seed": seed, "breaks_property": [] if seed.startswith("H") else seed[:3] if not seed.startswith("R") else (open(d + "/props").read().split() if os.path.exists(d + "/props") else []), "touches": files,
+            "origin": "harmless change written by hand (equivalent rewrite / extra fsync): every check must stay quiet" if seed.startswith("H") else "independent sub-agent given only the property text and a scratch worktree" if not seed.startswith("R") else "reverted fix commit",
             "needs_to_manifest": (re.search(r"(?is)(needs|manifest|trigger)[^\n]*\n(.{0,600})", notes) or [None, None, ""])[2].strip()[:600] if notes else "",
             "summary": notes.strip().split("\n\n")[0][:800],
-            "confirmed": verify, "how_confirmed": "tools/seedverify.sh in the scratch worktree: demo passes unchanged, with the patch all feature builds compile, the 38 pinned tests pass and the demo fails",
+            "confirmed": verify, "how_confirmed": "builds; the 38 pinned tests pass with it" if seed.startswith("H") else "tools/seedverify.sh in the scratch worktree: demo passes unchanged, with the patch all feature builds compile, the 38 pinned tests pass and the demo fails",
             "checks_run": evals, "latest_verdict_per_check": last}
     json.dump(meta, open(d + "/meta.json", "w"), indent=1)
     print(seed, {k: v[0] for k, v in last.items()})
@@ -37,5 +37,5 @@ with open(root + "/TABLE.md", "w") as out:
             if v == "detected":
                 verdicts.append(f"{chk}: " + ("tie" if "no-failing-input-found" in line else "concrete"))
             else:
-                verdicts.append(f"{chk}: missed")
+                verdicts.append(f"{chk}: " + ("quiet (as it must be)" if seed.startswith("H") else "missed"))
         out.write(f"| {seed} | {', '.join(f.replace('src/', '') for f in files)} | {short(title, 150)} | {'; '.join(verdicts)} |\n")
